@@ -20,6 +20,7 @@ const BuiltinSweepSrc = `<ul>
 @end
 @for(i = 0; i < 7; i++){{ i.str().repeat(2).upper() }}{{ "ab cd".capitalize() }}{{ [3, 1, 2].reverse().join("") }}{{ 2.5.round() }}{{ (i > 3).binary() }}{{ i.decimal() }}@end
 @dump(strs, ints, obj)
+@dump(big, bigobj){{ big }}|{{ bigobj }}
 {{ obj }}|{{ obj.k1 }}|{{ obj.nested.deep }}
 </ul>`
 
@@ -31,6 +32,14 @@ func BuiltinSweepData() *Val {
 	bools := VArr(VBool(true), VBool(false), VBool(true), VBool(true), VBool(false), VBool(false), VBool(true))
 	arrs := VArr(VArr(VInt(1), VInt(2), VInt(3)), VArr(), VArr(VInt(2)), VArr(VInt(5), VInt(4), VInt(3), VInt(2), VInt(1)), VArr(VInt(1), VInt(1)), VArr(VInt(7), VInt(8)))
 	obj := VMap([]string{"k1", "k2", "nested", "k0"}, []Val{VInt(1), VStr("two"), VMap([]string{"deep", "also"}, []Val{VStr("d"), VArr(VInt(1))}), VNil()})
-	d := VMap([]string{"strs", "ints", "floats", "bools", "arrs", "obj"}, []Val{strs, ints, floats, bools, arrs, obj})
+	// collections larger than anything a "small" fast path would cover
+	var bigElems, bigVals []Val
+	var bigKeys []string
+	for i := 0; i < 40; i++ {
+		bigElems = append(bigElems, VInt(i*i))
+		bigKeys = append(bigKeys, "key"+string(rune('a'+i%26))+string(rune('A'+i/26)))
+		bigVals = append(bigVals, VStr("v"+string(rune('a'+i%26))))
+	}
+	d := VMap([]string{"strs", "ints", "floats", "bools", "arrs", "obj", "big", "bigobj"}, []Val{strs, ints, floats, bools, arrs, obj, VArr(bigElems...), VMap(bigKeys, bigVals)})
 	return &d
 }
